@@ -67,7 +67,16 @@ type result struct {
 var frameRe = regexp.MustCompile(`github\.com/dolthub/go-mysql-server/([^\s(]+(?:\([^)]*\))?[^\s(]*)\(`)
 
 func panicFrame(stack string) string {
-	for _, l := range strings.Split(stack, "\n") {
+	// a deferred handler may recover and panic again (planbuilder.Parse does): the frames of the original panic
+	// are still on the stack below, so take the first engine frame after the LAST runtime panic entry
+	lines := strings.Split(stack, "\n")
+	start := 0
+	for i, l := range lines {
+		if strings.HasPrefix(l, "panic(") || strings.HasPrefix(l, "runtime.goPanic") || strings.HasPrefix(l, "runtime.panic") || strings.HasPrefix(l, "runtime.sigpanic") {
+			start = i
+		}
+	}
+	for _, l := range lines[start:] {
 		if strings.Contains(l, "go-mysql-server/") && !strings.Contains(l, "verifharness") && strings.Contains(l, "(") && !strings.HasPrefix(l, "\t") {
 			if m := frameRe.FindStringSubmatch(l); m != nil {
 				return m[1]
@@ -551,29 +560,118 @@ func runSeq(c *lib.Ctx, cs caseT) {
 	}
 }
 
+// ---------- (d) charset introducers x (odd-length) hex literals, optimizer hints x arities ----------
+var charsets = []string{"utf8mb4", "utf8mb3", "utf8", "utf16", "utf16le", "utf32", "ucs2", "latin1", "latin2", "latin5", "latin7", "ascii", "binary",
+	"big5", "gbk", "gb2312", "gb18030", "sjis", "cp932", "ujis", "eucjpms", "euckr", "cp1250", "cp1251", "cp1256", "cp1257", "cp850", "cp852", "cp866",
+	"armscii8", "dec8", "geostd8", "greek", "hebrew", "hp8", "keybcs2", "koi8r", "koi8u", "macce", "macroman", "swe7", "tis620"}
+var hexBytes = []string{"61", "E4", "B8", "00", "D8", "DC", "FF", "80", "C3", "A9", "F0", "90", "41", "7F", "E9"}
+var hintNames = []string{"JOIN_ORDER", "JOIN_FIXED_ORDER", "MERGE_JOIN", "LOOKUP_JOIN", "HASH_JOIN", "INNER_JOIN", "SEMI_JOIN", "ANTI_JOIN",
+	"LEFT_OUTER_LOOKUP_JOIN", "NO_ICP", "LEFT_DEEP", "NO_MERGE_JOIN", "NO_SUCH_HINT"}
+var hintQueries = []string{"* FROM xy JOIN uv ON x = u", "* FROM xy LEFT JOIN uv ON x = u", "* FROM xy JOIN uv ON x = u JOIN ab ON a = x",
+	"* FROM xy WHERE x IN (SELECT u FROM uv)", "* FROM xy WHERE NOT EXISTS (SELECT 1 FROM uv WHERE u = x)", "x FROM xy WHERE y = 1"}
+
+func genIntroHint(r *lib.RNG) caseT {
+	out := []string{"CREATE TABLE xy (x INT PRIMARY KEY, y INT, KEY iy (y))", "CREATE TABLE uv (u INT PRIMARY KEY, v INT)", "CREATE TABLE ab (a INT PRIMARY KEY, b INT)",
+		"INSERT INTO xy VALUES (1,1),(2,2)", "INSERT INTO uv VALUES (1,1),(3,3)", "INSERT INTO ab VALUES (1,1)"}
+	n := r.Range(3, 6)
+	for i := 0; i < n; i++ {
+		if r.Bool() {
+			cs := lib.Pick(r, charsets)
+			var lit string
+			switch r.Intn(4) {
+			case 0:
+				lit = lib.Pick(r, []string{"'abc'", "'a'", "''", "'abcde'", "'é'", "'日本'"})
+			case 1:
+				lit = "b'" + lib.Pick(r, []string{"1", "01100001", "0110000101", "111111111"}) + "'"
+			default:
+				k := r.Range(1, 6)
+				h := ""
+				for j := 0; j < k; j++ {
+					h += lib.Pick(r, hexBytes)
+				}
+				lit = "X'" + h + "'"
+			}
+			e := "_" + cs + " " + lit
+			switch r.Intn(5) {
+			case 0:
+				out = append(out, "SELECT "+e)
+			case 1:
+				out = append(out, "SELECT HEX("+e+"), LENGTH("+e+"), CHAR_LENGTH("+e+")")
+			case 2:
+				out = append(out, "SELECT "+e+" COLLATE "+cs+"_bin")
+			case 3:
+				out = append(out, "SELECT CONVERT("+e+" USING "+lib.Pick(r, charsets)+")")
+			default:
+				out = append(out, "SELECT * FROM xy WHERE "+e+" = 'a'")
+			}
+		} else {
+			names := []string{"xy", "uv", "ab", "nosuch", "XY"}
+			k := r.Intn(4)
+			var args []string
+			for j := 0; j < k; j++ {
+				args = append(args, lib.Pick(r, names))
+			}
+			h := lib.Pick(r, hintNames) + "(" + strings.Join(args, ",") + ")"
+			if r.Chance(1, 4) {
+				k2 := r.Intn(4)
+				var a2 []string
+				for j := 0; j < k2; j++ {
+					a2 = append(a2, lib.Pick(r, names))
+				}
+				h += " " + lib.Pick(r, hintNames) + "(" + strings.Join(a2, ",") + ")"
+			}
+			out = append(out, "SELECT /*+ "+h+" */ "+lib.Pick(r, hintQueries))
+		}
+	}
+	return caseT{Kind: "seq", Stmts: out, Shape: "seq"}
+}
+
 // ---------- child process for inputs that kill the process ----------
 func childMain(sqlText string) {
-	// an address-space limit makes the outcome independent of the machine's memory
+	// an address-space limit and a small goroutine stack limit make the outcome independent of the machine:
+	// a 64 GiB allocation or an unbounded recursion dies at once instead of after a minute
 	lim := syscall.Rlimit{Cur: 8 << 30, Max: 8 << 30}
 	_ = syscall.Setrlimit(syscall.RLIMIT_AS, &lim)
+	debug.SetMaxStack(48 << 20)
 	s := newSess()
-	r := s.query(sqlText, 20*time.Second)
-	fmt.Printf("CHILD-RETURNED err=%v panic=%q timeout=%v\n", r.err, r.panicV, r.timeout)
+	for _, q := range strings.Split(sqlText, "\x1f") {
+		r := s.query(q, 20*time.Second)
+		fmt.Printf("CHILD-STMT err=%v panic=%q timeout=%v\n", r.err, r.panicV, r.timeout)
+		if r.timeout {
+			break
+		}
+	}
+	fmt.Println("CHILD-RETURNED")
 	os.Exit(0)
 }
 
 func runChild(c *lib.Ctx, cs caseT) {
+	stmts := cs.Stmts
+	if len(stmts) == 0 {
+		stmts = []string{cs.SQL}
+	}
 	cmd := exec.Command(os.Args[0])
-	cmd.Env = append(os.Environ(), "C10_CHILD_SQL="+cs.SQL)
+	cmd.Env = append(os.Environ(), "C10_CHILD_SQL="+strings.Join(stmts, "\x1f"))
 	out, err := cmd.CombinedOutput()
-	id := c.CaseNoModel(cs, cs.SQL)
+	text := strings.Join(stmts, "; ")
+	id := c.CaseNoModel(cs, text)
 	c.PredChecked()
 	c.Count("child")
-	if !strings.Contains(string(out), "CHILD-RETURNED") {
-		first := strings.SplitN(string(out), "\n", 3)
-		c.PredFail(id, "process-crash/"+cs.Shape, fmt.Sprintf("%s killed the process (address space limited to 8 GiB): %v; %s", cs.SQL, err, strings.Join(first[:min(2, len(first))], " | ")), cs)
-	} else if strings.Contains(string(out), `panic="`) && !strings.Contains(string(out), `panic=""`) {
-		c.PredFail(id, "panic/"+cs.Shape, strings.TrimSpace(string(out)), cs)
+	o := string(out)
+	switch {
+	case !strings.Contains(o, "CHILD-RETURNED"):
+		why := "?"
+		for _, l := range strings.Split(o, "\n") {
+			if strings.HasPrefix(l, "fatal error:") || strings.HasPrefix(l, "runtime: out of memory") || strings.HasPrefix(l, "runtime: goroutine stack exceeds") {
+				why = l
+				break
+			}
+		}
+		c.PredFail(id, "process-crash/"+cs.Shape, fmt.Sprintf("%s killed the process (child with 8 GiB address space, 48 MiB goroutine stack): %v; %s", text, err, why), cs)
+	case strings.Contains(o, "timeout=true"):
+		c.PredFail(id, "hang/"+cs.Shape, text+" did not return within 20 s", cs)
+	case strings.Contains(o, `panic="`) && strings.Count(o, `panic=""`) != strings.Count(o, "CHILD-STMT"):
+		c.PredFail(id, "panic/"+cs.Shape, strings.TrimSpace(o), cs)
 	}
 }
 
@@ -630,6 +728,15 @@ func main() {
 			{Kind: "seq", Stmts: []string{"CREATE TABLE t0 (c4 DECIMAL(8,2), c5 VARCHAR(10), PRIMARY KEY (c4))", "CREATE INDEX Iac ON t0 (c4)", "ALTER TABLE t0 RENAME COLUMN c4 TO c3", "INSERT INTO t0 VALUES (1.5, 'x')"}},
 			{Kind: "seq", Stmts: []string{"CREATE TABLE t (id INT PRIMARY KEY, a INT)", "UPDATE t SET @@session.sql_mode = 'x' WHERE id IN (SELECT id FROM t)"}},
 			{Kind: "seq", Stmts: []string{"CREATE TABLE t (id INT PRIMARY KEY, a INT, c INT)", "CREATE INDEX Iac ON t(a,c)", "INSERT INTO t VALUES (1,1,1)", "DROP INDEX Iac ON t", "INSERT INTO t VALUES (2,2,2)"}},
+			{Kind: "stmt", Shape: "corpus", SQL: "SELECT INTERVAL 1 DAY"},
+			{Kind: "seq", Stmts: []string{"CREATE TABLE t (a INT, b INT)", "INSERT INTO t VALUES (1,2) AS n(x)"}},
+			{Kind: "seq", Stmts: []string{"PREPARE a FROM 'EXECUTE a'", "EXECUTE a"}},
+			{Kind: "seq", Stmts: []string{"SELECT _utf16'abc'", "SELECT _utf8mb3 X'61E4B8'", "SELECT _utf32 X'0000006100'"}},
+			{Kind: "seq", Stmts: []string{"CREATE TABLE xy (x INT PRIMARY KEY, y INT)", "CREATE TABLE uv (u INT PRIMARY KEY, v INT)",
+				"SELECT /*+ LEFT_OUTER_LOOKUP_JOIN(xy) */ * FROM xy LEFT JOIN uv ON x = u", "SELECT /*+ LEFT_OUTER_LOOKUP_JOIN() */ * FROM xy LEFT JOIN uv ON x = u",
+				"SELECT /*+ MERGE_JOIN(xy,uv,xy) */ * FROM xy JOIN uv ON x = u"}},
+			{Kind: "child", Shape: "circular-views/stack-overflow", Stmts: []string{"CREATE TABLE t (a INT)", "CREATE VIEW v1 AS SELECT * FROM t",
+				"CREATE VIEW v2 AS SELECT * FROM v1", "CREATE OR REPLACE VIEW v1 AS SELECT * FROM v2", "SELECT * FROM v1"}},
 			{Kind: "child", Shape: "st_geomfromwkb/collection-count-2^32-1", SQL: "SELECT ST_AsText(ST_GeomFromWKB(X'0107000000FFFFFFFF'))"},
 		}
 		for _, cs := range corpus {
@@ -643,8 +750,10 @@ func main() {
 				cs = genCore(r)
 			case k < 5:
 				cs = genFnCall(r)
-			case k < 7:
+			case k < 6:
 				cs = genSeq(r)
+			case k < 7:
+				cs = genIntroHint(r)
 			default:
 				cs = genShuffle(r)
 			}
